@@ -319,7 +319,7 @@ func c26specs() []c26spec {
 		d1, d2, d3 = 4, 6, 4
 	}
 	return []c26spec{
-		{"any API sequence", nil, full, d1},
+		{"any API sequence", []string{"Connect"}, full, d1},
 		{"sleep cycles", []string{"Connect", "Subscribe r/1 q1", "Subscribe w/# q2"},
 			[]string{"Sleep 3s", "Sleep 6s", "Connect", "Idle 5s", "Publish xy q1", "broker r/1 q1", "broker r/1 q2", "broker w/n1 q1", "broker w/n1,w/n2 q0", "Disconnect"}, d2},
 		{"bursts on unregistered topics", []string{"Connect", "Subscribe w/# q2"},
@@ -417,7 +417,7 @@ func TestC26(t *testing.T) {
 	rep.Coverage["exhaustive"] = complete
 	rep.Coverage["state_classes"] = classes
 	rep.Coverage["samples"] = samples
-	rep.Coverage["rule"] = "BFS over legal API/broker event sequences on the real client <-> lossless link <-> real gateway session <-> keep-alive-enforcing broker model (KeepAlive 4 s): (1) every sequence of depth 3 (thorough 4) over Connect, Register, Subscribe (name, short, wildcard, predefined), Unsubscribe, Publish on registered/short/predefined topics at QoS 0,1,2,-1, Ping, Sleep 3 s, Disconnect and broker publishes (subscribed name, short, predefined, new name under a wildcard, burst of two new names); (2) sleep cycles of depth 4 (6) over Sleep 3 s / 6 s, wake-up Connect, 5 s idle, publishes while asleep; (3) bursts on unregistered names of depth 3 (4). After every event: the call returned nil, the broker model shows the documented effect, the broker model saw no protocol error, and every message owed to a subscription has reached a handler exactly once under the broker's topic as soon as the client is reachable"
+	rep.Coverage["rule"] = "BFS over legal API/broker event sequences on the real client <-> lossless link <-> real gateway session <-> keep-alive-enforcing broker model (KeepAlive 4 s): (1) after Connect every sequence of depth 3 (thorough 4) over Register, Subscribe (name, short, wildcard, predefined), Unsubscribe, Publish on registered/short/predefined topics at QoS 0,1,2,-1, Ping, Sleep 3 s, Disconnect and broker publishes (subscribed name, short, predefined, new name under a wildcard, burst of two new names); (2) sleep cycles of depth 4 (6) over Sleep 3 s / 6 s, wake-up Connect, 5 s idle, publishes while asleep; (3) bursts on unregistered names of depth 3 (4). After every event: the call returned nil, the broker model shows the documented effect, the broker model saw no protocol error, and every message owed to a subscription has reached a handler exactly once under the broker's topic as soon as the client is reachable"
 	rep.Assumptions = []string{"default schedule (the thread interleavings of single exchanges are explored by C06, C11, C13, C33)", "legal usage only: Connect first, nothing but Sleep/Connect/Disconnect between two sleep periods, publishing by name only on known names"}
 	rep.Finish()
 }
